@@ -536,21 +536,48 @@ def _ancestors(root: ast.AST, node: ast.AST):
         p_ = pm.get(p_)
 
 
+def stub_fold_rule(repo: Repo, rep: Report, rid: str) -> bool:
+    rep.rule(rid, "stub generator folded: generate_cstruct_stub is interpreted on a model cstruct object (constants of every literal kind and members "
+                  "of anonymous enums / flags, aliases by name and of built-ins, repeated array / pointer typedefs, enums with and without members, a "
+                  "second name of an enum, a flag, structures with scalar / array / pointer / enum / bit-field / char-array fields, fields of "
+                  "registered, anonymous and unregistered named structures behind arrays and pointers, a union, an empty structure, a custom type), "
+                  "with and without a module prefix, and on an object without definitions; the text must parse and declare exactly the object's "
+                  "names: Literal constants, aliases in the right scope, classes with every member / field, its hint and the two __init__ overloads")
+    from ..stubfold import fold_stub
+
+    cache = repo.__dict__.setdefault("_stub_fold", {})
+    if "r" not in cache:
+        cache["r"] = fold_stub(repo)
+    fold = cache["r"]
+    fi = repo.func("tools/stubgen.py", "generate_cstruct_stub")
+    if fold is None:
+        rep.ok(rid, f"{fi.key}:stub-fold", "the stub generator uses a construct outside the evaluator's whitelist: the structural rules decide", fi.loc(), nontrivial=False)
+        return False
+    rep.info["stub_fold_cases"] = fold["cases"]
+    bad = fold["bad"]
+    rep.check(not bad, rid, f"{fi.key}:stub-fold", f"{fold['cases']} generated stubs declare exactly what the model objects provide",
+              f"stub generated with {bad[0][0] if bad else ''}: {bad[0][1] if bad else ''}" + (f" [{len(bad)} discrepancies]" if len(bad) > 1 else ""), fi.loc())
+    return True
+
+
 def run(repo: Repo, rep: Report, tier: str) -> None:
-    template_rule(repo, rep, "C20.R1")
+    from .compiled import fallback_rule
+
+    decided = stub_fold_rule(repo, rep, "C20.R13")
+    fallback_rule(repo, rep, decided, "the stub fold (R13)", template_rule, "C20.R1")
     sanitise_rule(repo, rep, "C20.R2")
-    contradiction_rule(repo, rep, "C20.R3")
-    completeness_rule(repo, rep, "C20.R4")
+    fallback_rule(repo, rep, decided, "the stub fold (R13)", contradiction_rule, "C20.R3")
+    fallback_rule(repo, rep, decided, "the stub fold (R13)", completeness_rule, "C20.R4")
     type_table_rule(repo, rep, "C20.R5")
-    synthesised_name_rule(repo, rep, "C20.R6")
+    fallback_rule(repo, rep, decided, "the stub fold (R13)", synthesised_name_rule, "C20.R6")
     literal_rule(repo, rep, "C20.R7")
     fresh_generation_rule(repo, rep, "C20.R8")
     rename_once_rule(repo, rep, "C20.R9")
     from .memo import memo_rule
 
     memo_rule(repo, rep, "C20.R10")
-    context_forwarding_rule(repo, rep, "C20.R11")
-    class_body_rule(repo, rep, "C20.R12")
+    fallback_rule(repo, rep, decided, "the stub fold (R13)", context_forwarding_rule, "C20.R11")
+    fallback_rule(repo, rep, decided, "the stub fold (R13)", class_body_rule, "C20.R12")
+    from .c13 import getattr_fold_rule
 
-
-
+    getattr_fold_rule(repo, rep, "C20.R14")
